@@ -10,7 +10,7 @@ from props.common import *
 import subprocess
 LEVEL = 'proof'
 CLAIM = ("For every catalogued component-wise operator and function (vector operators + - * / % & | ^ << >> ~ unary+- ++ -- == != && || and their "
-         "compound/scalar/vec1 overload shapes; func_common, func_exponential, func_trigonometric, func_vector_relational, func_integer; ext/vector_common, "
+         "compound/scalar/vec1 overload shapes, including compound assignments whose scalar right-hand side is a component of the assigned vector (v *= v.x); func_common, func_exponential, func_trigonometric, func_vector_relational, func_integer; ext/vector_common, "
          "vector_relational, vector_integer, vector_reciprocal, vector_ulp; gtc/epsilon, gtc/round; gtx/component_wise folds, 3/4-argument min/max with gtx/extended_min_max; "
          "matrix abs/mix/equal/notEqual) the clang IR of the "
          "vector overload and of the scalar overload applied to the same symbolic component values are executed into SMT terms and the solver shows "
